@@ -23,7 +23,7 @@ if [ $clean -eq 0 ] && [ $applied -eq 0 ] && [ $build -eq 0 ] && [ $tests -eq 0 
 import json,sys
 n=json.load(open(sys.argv[1]))
 m={"property":sys.argv[3],"breaks":n.get("breaks"),"needs":n.get("needs"),"files_changed":n.get("files_changed"),
-   "author":"independent sub-agent (round 2) given only the property text and a scratch worktree",
+   "author":"independent sub-agent given only the property text and a scratch worktree",
    "validated_by_me":{"how":"fresh worktree of /repo HEAD under /tmp: demo/run.sh on the clean tree (exit 0), git apply patch.diff, go build ./..., go test -vet=off -count=1 ./... (all ok), demo/run.sh again (exit != 0)","result":sys.argv[4]},
    "detected_by":"see seeded/RESULTS-*.txt and DESIGN.md §13.5"}
 json.dump(m,open(sys.argv[2],"w"),indent=1)
